@@ -7,6 +7,7 @@ from .expr import ExprMixin
 from .stmt import StmtMixin
 from .calls import CallMixin, SPECFUNS
 from . import lemmas as lemmas_mod
+from . import listsets
 
 _parse_cache = {}
 
@@ -30,6 +31,7 @@ class Exec(ExprMixin, StmtMixin, CallMixin):
         self.lemmas = lemmas_mod
         self.nexec = 0
         self.qdepth = 0
+        self.listsets = False
         for m in (models or []): m.install(self)
 
     # ---------------------------------------------------------------- schema
@@ -55,7 +57,7 @@ class Exec(ExprMixin, StmtMixin, CallMixin):
         if isinstance(k, tuple) and k[0] == 'tuple': return VTuple([self.make_value(x, '%s.%d' % (name, i), p) for i, x in enumerate(k[1:])])
         if isinstance(k, tuple) and k[0] == 'clist': return VCList([self.make_value(k[1], '%s.%d' % (name, i), p) for i in range(k[2])])
         v = named_of_kind(name, k)
-        if isinstance(v, VList): p.assume(v.len >= 0)
+        p.assume(wf(v))
         return v
 
     # ---------------------------------------------------------------- specs
@@ -116,6 +118,14 @@ class Exec(ExprMixin, StmtMixin, CallMixin):
             al = p.ghost.get('alloc')
             if al is None: al = z3.Array('ALLOC', I, B)
             return VBool(z3.Select(al, r.t))
+        if n in ('elems', 'pelems', 'dupfree', 'appended'):
+            L = self.ev(a[0], p)
+            if not (isinstance(L, VList) and L.kind == 'int'): raise StaleContract('%s of a non-int list' % n)
+            if n == 'elems': return listsets.VSet(listsets.Elems(L.term()))
+            if n == 'pelems': return listsets.VSet(listsets.PElems(L.term(), self.ev(a[1], p).t))
+            if n == 'dupfree': return VBool(listsets.DupFree(L.term()))
+            v = self.ev(a[1], p)
+            return VList(L.len + 1, z3.Store(L.arr, L.len, v.t), 'int')
         if n == 'opt_is_none': return VBool(Opt.is_none(self.toopt(self.ev(a[0], p))))
         if n == 'opt_val': return VInt(Opt.v(self.toopt(self.ev(a[0], p))))
         if n == 'real': return VReal(self.toreal(self.ev(a[0], p)))
@@ -125,10 +135,13 @@ class Exec(ExprMixin, StmtMixin, CallMixin):
             j = fresh(a[0].id, I); q = p.fork(); q.env[a[0].id] = VInt(j)
             hi = self.ev(a[1], p).t
             b = self.ev(a[2], q)
-            if n == 'Count': return VInt(self.lemmas.SumA(z3.Lambda([j], z3.If(self.truthy(b), 1, 0)), hi))
-            if n == 'SumR': return VReal(self.lemmas.SumR(z3.Lambda([j], self.toreal(b)), hi))
+            def lam(t):      # Lambda j. a[j]  is the array a itself (keeps terms small and syntactically equal)
+                if z3.is_select(t) and t.arg(1).eq(j) and not contains(t.arg(0), j): return t.arg(0)
+                return z3.Lambda([j], t)
+            if n == 'Count': return VInt(self.lemmas.SumA(lam(z3.If(self.truthy(b), z3.IntVal(1), z3.IntVal(0))), hi))
+            if n == 'SumR': return VReal(self.lemmas.SumR(lam(self.toreal(b)), hi))
             t, r = self.num(b, 'sum', p, 0)
-            return VInt(self.lemmas.SumA(z3.Lambda([j], t), hi))
+            return VInt(self.lemmas.SumA(lam(t), hi))
         h = self.spec_ext.get(n)
         if h is not None: return h(self, e, p)
         raise StaleContract('unknown spec function ' + n)
@@ -141,6 +154,7 @@ class Exec(ExprMixin, StmtMixin, CallMixin):
         fn = self.repo.get(key); c = self.contracts.get(key)
         if c is None: raise StaleContract('no contract for ' + key)
         self.fn = fn; self.contract = c; self.vcs = []
+        self.listsets = 'listsets' in c.get('theory', [])
         self.defs = dict(self.global_defs); self.defs.update(c.get('defs', {}))
         nloops = len(fn.loop_nodes)
         for o in c.get('loops', {}):
@@ -202,6 +216,30 @@ class Exec(ExprMixin, StmtMixin, CallMixin):
         return self.vcs, info
 
 
+def wf(v):
+    """Well-formedness every Python value has: list lengths (also of element lists) are non-negative."""
+    if isinstance(v, VList):
+        out = [v.len >= 0]
+        if isinstance(v.kind, tuple) and v.kind[0] == 'list':
+            x = fresh('wfx', I); e = wrap(v.kind, z3.Select(v.arr, x))
+            out.append(z3.ForAll([x], z3.Implies(z3.And(0 <= x, x < v.len), wf(e))))
+        return z3.And(*out)
+    if isinstance(v, VTuple): return z3.And(*[wf(x) for x in v.items]) if v.items else z3.BoolVal(True)
+    return z3.BoolVal(True)
+
+
+def contains(t, x):
+    seen = set(); stack = [t]
+    while stack:
+        u = stack.pop()
+        if u.eq(x): return True
+        if u.get_id() in seen: continue
+        seen.add(u.get_id())
+        if z3.is_app(u): stack.extend(u.children())
+        elif z3.is_quantifier(u): stack.append(u.body())
+    return False
+
+
 def named_of_kind(name, k):
     """Like fresh_of_kind but with stable, readable names (function parameters)."""
     if k in ('int', 'var', 'enum'): return VInt(z3.Int(name))
@@ -241,7 +279,19 @@ def _verify_lemma(self, name, L):
     for h in L.get('hyps', []):
         for nm, src, q in clauses(h): p.assume(self.spec_eval(src, q))
     self.vcs.append(VC('cover/hyps', list(p.pc), z3.BoolVal(False), 'cover', 0, self.fn.key, expect='sat'))
-    for g in L['goals']:
+    if 'induct' in L:
+        # claim(m) for all lo <= m <= hi, by induction on m: base and step are separate VCs (the induction
+        # principle itself is part of the trusted engine)
+        var, lo, hi, claim = L['induct']
+        lo_t = self.spec_value(lo, p).t; hi_t = self.spec_value(hi, p).t
+        q = p.fork(); q.env[var] = VInt(lo_t)
+        self.vcs.append(VC('induct/base', list(p.pc) + [lo_t <= hi_t], self.spec_eval(claim, q), 'lemma', 0, self.fn.key))
+        m = fresh(var, I); q = p.fork(); q.env[var] = VInt(m)
+        hyp = self.spec_eval(claim, q)
+        q2 = p.fork(); q2.env[var] = VInt(m + 1)
+        self.vcs.append(VC('induct/step', list(p.pc) + [lo_t <= m, m < hi_t, hyp], self.spec_eval(claim, q2), 'lemma', 0, self.fn.key))
+        p.assume(self.induct_fact(L, p))
+    for g in L.get('goals', []):
         if isinstance(g, tuple) and g[0] == 'assume':      # hypotheses added after earlier goals (ordering matters)
             for nm, src, q in clauses(g[1]): p.assume(self.spec_eval(src, q))
             continue
@@ -254,4 +304,39 @@ def _verify_lemma(self, name, L):
     return self.vcs, dict(function='lemma:' + name, file='contracts', lines=[0, 0], sha256='', stmts_executed=0, paths=1, vcs=len(self.vcs))
 
 
+def _induct_fact(self, L, p):
+    var, lo, hi, claim = L['induct']
+    m = fresh(var, I); q = p.fork(); q.env[var] = VInt(m)
+    return z3.ForAll([m], z3.Implies(z3.And(self.spec_value(lo, p).t <= m, m <= self.spec_value(hi, p).t), self.spec_eval(claim, q)))
+
+
+def _use_lemma(self, name, binding, p, where):
+    """Instantiate a proved lemma: its hypotheses become obligations, its conclusions are assumed."""
+    L = self.all_lemmas.get(name)
+    if L is None: raise StaleContract('unknown lemma ' + name)
+    q = p.fork(); q.env = {}
+    for n in L.get('vars', {}):
+        if n not in binding: raise StaleContract('use of lemma %s does not bind %s' % (name, n))
+        q.env[n] = self.spec_value(binding[n], p)
+    saved = self.defs; self.defs = dict(self.global_defs); self.defs.update(L.get('defs', {}))
+    try:
+        for i, h in enumerate(L.get('hyps', [])):
+            if not isinstance(h, str): raise StaleContract('lemma %s with contract-clause hypotheses cannot be instantiated' % name)
+            self.vcs.append(VC('lemma-pre/%s/%d@%s' % (name, i, where), list(p.pc), self.spec_eval(h, q), 'call-pre', 0, self.fn.key))
+        if 'induct' in L: p.assume(self.induct_fact(L, q))
+        for g in L.get('goals', []):
+            if isinstance(g, tuple) and len(g) == 2 and g[0] != 'assume': p.assume(self.spec_eval(g[1], q))
+    finally:
+        self.defs = saved
+
+
+def _apply_lemmas(self, anchor, p):
+    for name, binding in self.contract.get('use_lemmas', {}).get(anchor, []):
+        self.use_lemma(name, binding, p, anchor)
+
+
 Exec.verify_lemma = _verify_lemma
+Exec.induct_fact = _induct_fact
+Exec.use_lemma = _use_lemma
+Exec.apply_lemmas = _apply_lemmas
+Exec.all_lemmas = {}
